@@ -38,7 +38,7 @@ CHECKS.update({
  'C13': ('model_checking', 'all patterns x all texts of length <=3/4 over {%,_,a,b,.} in WHERE, CASE, SELECT and HAVING against a regexp reference; IS [NOT] NULL over present/NULL/missing and nested paths in every context', 'DESIGN.md 3/C13', SEQ_NOTE, DET),
  'C14': ('model_checking', '6 analytic queries x all row sequences (length<=4/5 over 3 partitions x {1,2,NULL,missing}) through EmitSync against per-partition reference state machines, sync vs async, partition isolation, changed_col(s), WHEN gating (passing rows metamorphic, failing rows repeat the last result), pairwise partition-key collision search, partition cap', 'DESIGN.md 3/C14', SEQ_NOTE, DET),
  'C15': ('model_checking', '24 patterns x 4 DEFINE templates x every SKIP mode x all event streams (length<=5/7 over 3 values) against a brute-force matcher (all valid labelings; leftmost start, longest end, SKIP rule), ALL ROWS classification, two interleaved partitions, WITHIN (longest run per start whose span fits), pairwise partition-key search', 'DESIGN.md 3/C15', SEQ_NOTE, DET),
- 'C16': ('model_checking', '6 JOIN queries x initial tables x all operation sequences (length<=3/4 over EmitSync/Upsert/Delete with int/float/string/NULL key components) against a typed-key reference table; 864 ON-clause naming configurations; composite-key pair search (match iff equal); GROUP BY/WHERE on joined columns; all schedules (<=1/2 deviations) of Emit x2 against Upsert+Delete with a table-version window oracle', 'DESIGN.md 3/C16', SEQ_NOTE + '; ' + SCHED_NOTE, DET + ' + stateless schedule DFS'),
+ 'C16': ('model_checking', '6 JOIN queries x initial tables x all operation sequences (length<=3/4 over EmitSync/Upsert/Delete with int/float/string/NULL key components) against a typed-key reference table; 864 ON-clause naming configurations; composite-key pair search (match iff equal); GROUP BY/WHERE on joined columns; all schedules (<=1/2 deviations) of Emit x2 against Upsert+Delete with a table-version window oracle; auxiliary: free-running -race pass of Emit/EmitSync against UpsertTable/Delete', 'DESIGN.md 3/C16', SEQ_NOTE + '; ' + SCHED_NOTE, DET + ' + stateless schedule DFS'),
  'C17': ('model_checking', '13 TRIGGER WHEN predicates x all row sequences (length<=4/6 over 2 groups x {1,2,3,NULL}; short ones also with pauses between rows) against the running-aggregate reference', 'DESIGN.md 3/C17', SEQ_NOTE, DET),
  'C18': ('model_checking', 'all schedules (quick: <=2 deviations, every non-default choice costs 1; thorough: <=1 preemption with free choices at blocking points) of Emit/Stop/AddSink/GetStats/TriggerWindow/EmitSync threads on 11 query kinds x 3 overflow strategies with plain, panicking (sync and async), re-entrant and blocking sinks; monitors for panic, deadlock, Stop barrier, grace timer, goroutine leak, delivery of later rows after a sink panic; plus the free-running -race pass', 'DESIGN.md 3/C18', SCHED_NOTE, 'stateless DFS over schedules of the instrumented implementation, deviation-bounded, happens-before state caching; auxiliary -race pass'),
  'C20': ('model_checking', '15 query kinds x Emit/EmitSync x nested rows: deep snapshots of caller maps and of delivered batches; 8 instance pairs x all input sequences (length<=2/3) x all interleavings of the two inputs against solo runs on fresh globals; plus the free-running -race pass', 'DESIGN.md 3/C20', SEQ_NOTE, DET + ' over all operation interleavings of two instances; auxiliary -race pass'),
